@@ -2,7 +2,7 @@ import TsV.Model.Lang.Python
 /-!
 # C10, Python docstrings: the written doc text contains no backslash sequence other than `\\` and `\"`
 
-Since the `fix:` commit 37d8a26 `write_comments` doubles every backslash of a doc line before it
+Since the `fix:` commit af54d85 `write_comments` doubles every backslash of a doc line before it
 escapes `"""`.  In a non-raw Python string literal `\x`, `\u`, `\U`, `\N` start escapes that are
 errors unless the right number of hex digits / a character name follows, so doc text such as
 `see C:\Users\x` made the module uncompilable (finding `python-docstring-escape`).  `pyEscapesOk`
